@@ -61,6 +61,7 @@ struct InstModel {
   int mov = 2, swap = 1, nobase = 1;
   long chunk = 0;  // 0 = fitting off
   bool chunk_unknown = false;
+  bool ever_fit = false;  // fitting has been switched on at some point in this instance's life
   long offset = 0;
   bool offset_unspec = false;
   bool offset_explicit = false;  // set by set_offset since the last assemble
